@@ -165,6 +165,40 @@ func runC03(ctx *Ctx, c c03Case) {
 	}
 }
 
+// leftovers of a streaming workflow: a FIFO without a temp dir (the run was killed right after the FIFO was
+// created) must make the next run stop, like a leftover temp dir does
+func leftoverFifo(ctx *Ctx) {
+	c := c17Case{N: 1, Bytes: 100, Max: 2}
+	d, pre := c.desc()
+	dir := newDir()
+	defer os.RemoveAll(dir)
+	r1 := RunWorkflow(d, RunOpts{Dir: dir, Pre: pre, Env: []string{"VERIF_CRASH_AT=proc.fifo#1"}, Timeout: 15e9})
+	ctx.Res.Eval("leftover-fifo", r1.Exit == -1, "streaming pair killed at proc.fifo#1, re-run without cleanup")
+	ctx.Res.Count("attempt:proc.fifo")
+	left := leftovers(dir)
+	hasFifo, hasTmp := false, false
+	for _, l := range left {
+		if strings.HasSuffix(l, ".fifo") {
+			hasFifo = true
+		}
+		if strings.Contains(l, "_scipipe_tmp") {
+			hasTmp = true
+		}
+	}
+	if !hasFifo {
+		ctx.Res.Note("leftover-fifo: the kill left no FIFO behind (" + fmt.Sprint(left) + ")")
+		return
+	}
+	ctx.Res.Count(fmt.Sprintf("leftover-fifo tmpdir=%v", hasTmp))
+	os.Remove(filepath.Join(dir, "_cmdtrace.log"))
+	r2 := RunWorkflow(d, RunOpts{Dir: dir, Timeout: 15e9})
+	if r2.Exit == 0 {
+		ctx.Res.Violate(Violation{What: fmt.Sprintf("the re-run completed although the FIFO %v of the killed run was still in place", left), Class: "c03.adopted-leftovers", Witness: "streaming pair, kill at proc.fifo#1, no cleanup"})
+	} else if r2.Exit == -2 {
+		ctx.Res.Violate(Violation{What: fmt.Sprintf("the re-run hangs on the leftover FIFO %v instead of stopping", left), Class: "c03.adopted-leftovers", Witness: "streaming pair, kill at proc.fifo#1, no cleanup"})
+	}
+}
+
 func checkC03(ctx *Ctx) {
 	ctx.Res.Rule = "chain workflows; histories of 1-3 attempts, each killed (SIGKILL of the process group) at the n-th occurrence of one of 20 instrumented points, each followed or not by removal of _scipipe_tmp* / *.fifo, then a final run; non-trivial = at least one attempt was really killed; distinct by (chain, history). Checks after every attempt: every file at a final path equals the uninterrupted content, finalized tasks are not re-executed, leftovers make the next run fail; after the final run: file set and contents equal the uninterrupted result."
 	r := NewRng(ctx.Seed)
@@ -202,6 +236,7 @@ func checkC03(ctx *Ctx) {
 			runC03(ctx, cases[i])
 		}
 	})
+	leftoverFifo(ctx)
 	ctx.Res.Extra["model_window_witness"] = ctx.Drv.Ask("task.history", "0,0", "w:0:1,w:1:2", "ok", "", "12:1")
 }
 
